@@ -90,3 +90,56 @@ def _nested(f: FuncInfo) -> tp.Iterator[FuncInfo]:
         if not isinstance(g.node, ast.Lambda):
             yield g
             yield from _nested(g)
+
+
+SIBLING_CLASSES = ('Series', 'Frame', 'Index', 'IndexHierarchy', 'Bus', 'Batch', 'Quilt', 'TypeBlocks', 'IndexLevel', 'FrameGO', 'IndexGO', 'SeriesHE', 'FrameHE')
+# (method, parameter) whose defaults legitimately differ between sibling classes, with the reason
+DEFAULT_EXCEPTIONS = {
+    ('from_concat', 'name'): 'Series.from_concat derives the name from its inputs when none is given (NAME_DEFAULT sentinel); a Frame has no such derivation',
+    ('__init__', 'name'): 'Batch has no NAME_DEFAULT derivation from its initializer',
+    ('_axis_group_labels_items', 'depth_level'): 'a Series index group defaults to the whole label, a Frame to the outermost depth',
+    ('to_frame', 'axis'): 'Series.to_frame places the Series as a column (axis 1); Batch.to_frame concatenates Frames along axis 0',
+}
+
+
+def sibling_defaults(ctx: Ctx, prefixes: tp.Optional[tp.Sequence[str]] = None, suffix: str = 'all', floor: int = 100) -> None:
+    R = f'G.sibling-defaults[{suffix}]'
+    ctx.rule(R, 'a parameter that the same-named method of several container classes (Series, Frame, Index, IndexHierarchy, Bus, Batch, Quilt, TypeBlocks, ...) all take has '
+             'the same default in each of them (150 such pairs in core, 4 confirmed exceptions listed with reasons): a default changed in one sibling makes the same '
+             'call mean different things on different containers (ascending, kind, skipna, axis, fill_value, drop, union, limit, ...)', floor=floor)
+    prog = ctx.prog
+    byname: tp.Dict[tp.Tuple[str, str], tp.Dict[str, tp.Tuple[str, FuncInfo]]] = {}
+    for cname in SIBLING_CLASSES:
+        try:
+            k = prog.cls(cname)
+        except Exception:
+            continue
+        for m, f in k.methods.items():
+            if prefixes is not None and not m.startswith(tuple(prefixes)):
+                continue
+            for prm in f.params:
+                d = f.param_default(prm)
+                if d is not None:
+                    byname.setdefault((m, prm), {})[cname] = (norm(d), f)
+    n = 0
+    for (m, prm), dd in sorted(byname.items()):
+        if len(dd) < 2:
+            continue
+        n += 1
+        vals = {v for v, _f in dd.values()}
+        some_f = next(iter(dd.values()))[1]
+        key = f'{m}:{prm}'
+        if len(vals) == 1:
+            ctx.ok(R, f'<siblings>.{m}', None, f'{prm}={next(iter(vals))} in {sorted(dd)}', key=key, file=some_f.file)
+        elif (m, prm) in DEFAULT_EXCEPTIONS:
+            ctx.ok(R, f'<siblings>.{m}', None, f'{prm} differs by design: {DEFAULT_EXCEPTIONS[(m, prm)]}', key=key, file=some_f.file)
+        else:
+            # the odd one out is the minority value
+            counts: tp.Dict[str, tp.List[str]] = {}
+            for c, (v, _f) in dd.items():
+                counts.setdefault(v, []).append(c)
+            minority = min(counts.items(), key=lambda kv: len(kv[1]))
+            odd_f = dd[minority[1][0]][1]
+            ctx.bad(R, odd_f, odd_f.node, f'`{prm}` defaults to {minority[0]} in {minority[1]} but to {sorted(v for v in counts if v != minority[0])} in '
+                    f'{sorted(c for v, cs in counts.items() if v != minority[0] for c in cs)}: the same call behaves differently on sibling containers', key=key)
+    ctx.require(n >= floor, 'sibling method parameters with defaults')
